@@ -204,7 +204,7 @@ func nameKind(name string) string {
 var keywordRowsNT = []string{"DATA", "NCHAR", "MATCHCHAR"}
 var keywordRowsAA = []string{"END", "GAP", "DATA", "TAXA", "TREE", "TREES", "MATRIX", "MISSING", "NCHAR", "NTAX", "BEGIN", "DATATYPE", "MATCHCHAR", "TAXLABELS", "CHARACTERS"}
 
-func isKeywordRow(seq string) bool { return keywords[strings.ToLower(seq)] }
+func isKeywordRow(seq string) bool { return len(seq) <= 12 && keywords[strings.ToLower(seq)] }
 
 // ---- generators -------------------------------------------------------------------------------
 
@@ -313,6 +313,11 @@ func genName(t *rapid.T, d dom, i int, used map[string]bool, prev []string) stri
 		}
 		name = string(r)
 	}
+	return uniqueName(name, d, i, used)
+}
+
+// uniqueName makes the name legal for the domain and different from the names already used
+func uniqueName(name string, d dom, i int, used map[string]bool) string {
 	name = sanitize(name, d)
 	base := name
 	for n := 0; used[name]; n++ {
@@ -444,3 +449,80 @@ func showCfgs(cs []cfg) string {
 	}
 	return fmt.Sprint(s)
 }
+
+// ---- large alignments ---------------------------------------------------------------------------
+
+// expand: the alignment whose rows are rep rotated copies of the base rows. A case stores the
+// (small) base and the factor, so that texts crossing the 4 KiB / 32 KiB / 64 KiB buffers of the
+// file layer cost neither thousands of draws nor megabytes of replay file; the rotation by 7
+// keeps the content from being periodic with the base length
+func expand(a gen.Ali, rep int) gen.Ali {
+	if rep <= 1 {
+		return a
+	}
+	out := gen.Ali{Alphabet: a.Alphabet}
+	for _, r := range a.Rows {
+		var sb strings.Builder
+		l := len(r.Seq)
+		for k := 0; k < rep && l > 0; k++ {
+			s := (k * 7) % l
+			sb.WriteString(r.Seq[s:])
+			sb.WriteString(r.Seq[:s])
+		}
+		out.Rows = append(out.Rows, gen.Row{Name: r.Name, Seq: sb.String()})
+	}
+	return out
+}
+
+func repAt(reps []int, i int) int {
+	if i < len(reps) && reps[i] > 1 {
+		return reps[i]
+	}
+	return 1
+}
+
+const maxRepeat = 120000
+
+// size classes by the amount of text the alignment gives (residues, rows x columns)
+var sizeClasses = []string{"tiny", "normal", ">4KiB", ">8KiB", ">32KiB", ">64KiB"}
+
+func sizeClassOf(a gen.Ali, rep int) string {
+	n := len(a.Rows) * a.Length() * rep
+	switch {
+	case n > 65536:
+		return ">64KiB"
+	case n > 32768:
+		return ">32KiB"
+	case n > 8192:
+		return ">8KiB"
+	case n > 4096:
+		return ">4KiB"
+	case n <= 200:
+		return "tiny"
+	}
+	return "normal"
+}
+
+// genSized draws a base alignment and a repetition factor for a size class; weights: index into
+// a list in which the classes appear as often as they should be drawn
+func genSized(t *rapid.T, d dom, class string, cs ...cfg) (gen.Ali, int) {
+	switch class {
+	case "tiny":
+		return genAliL(t, d, rapid.IntRange(1, 30).Draw(t, "L")), 1
+	case "normal":
+		return genAli(t, d, 245, cs...), 1
+	}
+	target := map[string]int{">4KiB": 4096, ">8KiB": 8192, ">32KiB": 32768, ">64KiB": 65536}[class]
+	a := genAli(t, d, 245, cs...)
+	cells := len(a.Rows) * a.Length()
+	// just above the threshold, or anywhere up to twice the threshold
+	extra := rapid.IntRange(1, target).Draw(t, "extra")
+	if rapid.Bool().Draw(t, "justabove") {
+		extra = rapid.IntRange(1, 64).Draw(t, "extra")
+	}
+	rep := (target+extra)/cells + 1
+	return a, rep
+}
+
+var streamSizes = []string{"tiny", "tiny", "tiny", "normal", "normal", ">4KiB", ">4KiB", ">4KiB", ">8KiB", ">8KiB", ">32KiB", ">64KiB"}
+var singleSizes = []string{"tiny", "normal", "normal", "normal", "normal", "normal", ">4KiB", ">8KiB", ">32KiB", ">64KiB"}
